@@ -148,6 +148,19 @@ def literals(res):
             add(str(2 ** k + d))
             add(hex(2 ** k + d))
             add(bin(2 ** k + d))
+            add(oct(2 ** k + d))
+    # every digit count up to 70 in every radix, with every leading digit and the extreme / a random tail: a machine-word
+    # fast path or a digit-count estimate goes wrong at one specific length and leading digit
+    for prefix, alphabet in (("", "0123456789"), ("0x", "0123456789abcdef"), ("0o", "01234567"), ("0b", "01"), ("0X", "0123456789ABCDEF")):
+        for n in range(1, 71):
+            for lead in alphabet[1:]:
+                tails = [alphabet[0] * (n - 1), alphabet[-1] * (n - 1)]
+                if thorough or n in (16, 19, 20, 21, 22, 32, 33, 43, 64, 65):
+                    tails.append("".join(rng.choice(alphabet) for _ in range(n - 1)))
+                for tail in tails:
+                    add(prefix + lead + tail)
+                    if prefix == "" and lead in "19":
+                        add(lead + tail + "j")
     for k in range(0, 400 if thorough else 60, 1 if thorough else 3):
         add("1" + "0" * k)
         add("9" * (k + 1))
